@@ -56,33 +56,50 @@ Definition ByInv (w : world) : Prop :=
   (forall tag k, alookup tag (w_gby w) = Some k -> exists info, sm_get k (w_gev w) = Some info /\ e_tag info = tag) /\
   (forall tag k, alookup tag (w_tby w) = Some k -> exists info, sm_get k (w_tev w) = Some info /\ e_tag info = tag).
 Definition GlInv (w : world) : Prop := forall i, get_by_index (w_gev w) i <> None -> nget (w_glists w) i <> None.
-Definition YI (w : world) : Prop := ByInv w /\ GlInv w /\ NInv w.
+(* the receiver of a live handler is a live event *)
+Definition recv_ok (w : world) (h : hinfo) : Prop :=
+  match h_recv h with RvGlobal ek => sm_get ek (w_gev w) <> None | RvTargeted ek => sm_get ek (w_tev w) <> None end.
+Definition RcvI (w : world) : Prop := forall hk h, hlive w hk h -> recv_ok w h.
+Definition YI (w : world) : Prop := ByInv w /\ GlInv w /\ NInv w /\ RcvI w.
 
 (* registries only grow *)
-Definition ev_le (w' w : world) : Prop := (forall i, greg w i -> greg w' i) /\ (forall i, treg w i -> treg w' i).
-Lemma ev_le_refl w : ev_le w w. Proof. split; auto. Qed.
+Definition ev_le0 (w' w : world) : Prop := (forall i, greg w i -> greg w' i) /\ (forall i, treg w i -> treg w' i).
+Definition kl_le (w' w : world) : Prop :=
+  (forall k, sm_get k (w_gev w) <> None -> sm_get k (w_gev w') <> None) /\ (forall k, sm_get k (w_tev w) <> None -> sm_get k (w_tev w') <> None).
+Definition ev_le (w' w : world) : Prop := ev_le0 w' w /\ kl_le w' w.
+Lemma ev_le_g w' w : ev_le w' w -> forall i, greg w i -> greg w' i. Proof. intros [[A _] _]. exact A. Qed.
+Lemma ev_le_t w' w : ev_le w' w -> forall i, treg w i -> treg w' i. Proof. intros [[_ A] _]. exact A. Qed.
+Lemma ev_le_refl w : ev_le w w. Proof. split; split; auto. Qed.
 Lemma ev_le_trans a b c : ev_le a b -> ev_le b c -> ev_le a c.
-Proof. intros [A1 A2] [B1 B2]. split; auto. Qed.
+Proof. intros [[A1 A2] [A3 A4]] [[B1 B2] [B3 B4]]. split; split; auto. Qed.
 Lemma ev_le_reg w' w : registries w' = registries w -> ev_le w' w.
-Proof. unfold registries. intros H. injection H as E1 _ E2 _ E3. unfold ev_le, greg, treg. now rewrite E1, E2, E3. Qed.
+Proof. unfold registries. intros H. injection H as E1 _ E2 _ E3. unfold ev_le, ev_le0, kl_le, greg, treg. rewrite E1, E2, E3. split; split; auto. Qed.
+Lemma recv_ok_view w w' h h' : hview3 h' = hview3 h -> ev_le w' w -> recv_ok w h -> recv_ok w' h'.
+Proof.
+  unfold hview3. intros E [_ [K1 K2]] Hr. assert (Es : hstat h' = hstat h) by congruence. unfold recv_ok in *.
+  rewrite (f_equal h_recv Es : h_recv h' = h_recv h). destruct (h_recv h); auto.
+Qed.
 
 Lemma sender_ok_view w w' h h' : hview3 h' = hview3 h -> ev_le w' w -> sender_ok w h -> sender_ok w' h'.
 Proof.
-  unfold hview3. intros E [L1 L2] Hs g t Hin. assert (Es : hstat h' = hstat h) by congruence. assert (Ep : pss h' = pss h) by congruence.
+  unfold hview3. intros E [[L1 L2] _] Hs g t Hin. assert (Es : hstat h' = hstat h) by congruence. assert (Ep : pss h' = pss h) by congruence.
   rewrite Ep in Hin. destruct (Hs g t Hin) as [A B].
   rewrite (f_equal h_sent_g Es : h_sent_g h' = h_sent_g h), (f_equal h_sent_t Es : h_sent_t h' = h_sent_t h).
   split; intros tag i X; [destruct (A tag i X)|destruct (B tag i X)]; auto.
 Qed.
 Lemma NInv_le w' w : hs_le w' w -> ev_le w' w -> NInv w -> NInv w'.
 Proof. intros Hh He HN hk h' Hl. destruct (Hh hk h' Hl) as (h & A & B). eapply sender_ok_view; eauto. Qed.
+Lemma RcvI_le w' w : hs_le w' w -> ev_le w' w -> RcvI w -> RcvI w'.
+Proof. intros Hh He HN hk h' Hl. destruct (Hh hk h' Hl) as (h & A & B). eapply recv_ok_view; eauto. Qed.
 
 Lemma YI_frame w' w : registries w' = registries w -> hs_le w' w -> YI w -> YI w'.
 Proof.
-  intros Hr Hh (HB & HG & HN). pose proof (ev_le_reg _ _ Hr) as He. unfold registries in Hr. injection Hr as E1 E2 E3 E4 E5.
-  split; [|split].
+  intros Hr Hh (HB & HG & HN & HR). pose proof (ev_le_reg _ _ Hr) as He. unfold registries in Hr. injection Hr as E1 E2 E3 E4 E5.
+  split; [|split; [|split]].
   - unfold ByInv. rewrite E1, E2, E3, E4. exact HB.
   - unfold GlInv. rewrite E1, E5. exact HG.
   - eapply NInv_le; eauto.
+  - eapply RcvI_le; eauto.
 Qed.
 
 (* ---------- what a handler can push ---------- *)
@@ -120,7 +137,7 @@ Proof.
 Qed.
 
 Lemma item_ok_reg w w' x : registries w' = registries w -> item_ok w x -> item_ok w' x.
-Proof. intros H. destruct (ev_le_reg _ _ H) as [A B]. unfold item_ok. destruct (qi_targeted x); auto. Qed.
+Proof. intros H. destruct (ev_le_reg _ _ H) as [[A B] _]. unfold item_ok. destruct (qi_targeted x); auto. Qed.
 
 (* ---------- one delivery ---------- *)
 Definition ZI (w : world) : Prop := EI w /\ YI w.
@@ -237,7 +254,7 @@ Proof.
   { apply (flush_invariant_q wst qitem (run_w beh) unwind_w (fun s : wst => ZI (fst s) /\ ~ ubf (snd s)) (fun (s : wst) it => item_ok (fst s) it))
       with (n := FUEL) (q := q) (st := (w, None)) (acc := []) (tr := tr) (oc := oc) (st' := (w1, fl)); [| |exact E|split; [exact HZ|cbn; tauto]|exact HQ].
     - intros e st [HZs _] Qe. unfold run_w.
-      pose proof (deliver_one_ZI e (fst st) HZs) as Z1. destruct HZs as [[HD HS] (HB & HGl & HN)].
+      pose proof (deliver_one_ZI e (fst st) HZs) as Z1. destruct HZs as [[HD HS] (HB & HGl & HN & HRc)].
       pose proof (deliver_one_no_ub beh e (fst st) HD HS) as Hn. pose proof (fun x => deliver_one_sent e (fst st) x HN) as Hsent.
       pose proof (deliver_one_keeps_registries beh e (fst st)) as Hr.
       destruct (deliver_one beh e (fst st)) as [[sent w2] fl2]. cbn [fst snd] in *.
@@ -373,38 +390,38 @@ Proof.
 Qed.
 
 Lemma gev_ZOK fuel : forall tag w, ZI w ->
-  ZOK (add_global_event beh fuel tag w) (fun k w' => ev_le w' w /\ greg w' (fst k)) /\
+  ZOK (add_global_event beh fuel tag w) (fun k w' => ev_le w' w /\ greg w' (fst k) /\ sm_get k (w_gev w') <> None) /\
   forall ev, ZOK (send_global beh fuel tag ev w) (fun _ w' => ev_le w' w).
 Proof.
   induction fuel as [|f IH]; intros tag w HZ; [split; [|intros ev]; apply ZOK_fail; auto; cbn; tauto|].
-  assert (Hadd : ZOK (add_global_event beh (S f) tag w) (fun k w' => ev_le w' w /\ greg w' (fst k))).
-  { rewrite add_global_event_S. destruct HZ as [[HD HS] (HB & HGl & HN)].
+  assert (Hadd : ZOK (add_global_event beh (S f) tag w) (fun k w' => ev_le w' w /\ greg w' (fst k) /\ sm_get k (w_gev w') <> None)).
+  { rewrite add_global_event_S. destruct HZ as [[HD HS] (HB & HGl & HN & HRc)].
     destruct (alookup tag (w_gby w)) as [k0|] eqn:El.
-    { apply ZOK_ok; [split; [split|split; [|split]]; assumption|]. split; [apply ev_le_refl|eapply greg_of_by; eauto]. }
+    { apply ZOK_ok; [split; [split|split; [|split; [|split]]]; assumption|]. split; [apply ev_le_refl|split; [eapply greg_of_by; eauto|]]. destruct (proj1 HB _ _ El) as (i0 & A & _). rewrite A. discriminate. }
     destruct (insert_with (fun _ => mkE tag (gkind tag)) (w_gev w)) as [[k m]|] eqn:Ei.
-    2:{ apply ZOK_fail; [split; [split|split; [|split]]; assumption|cbn; tauto]. }
+    2:{ apply ZOK_fail; [split; [split|split; [|split; [|split]]]; assumption|cbn; tauto]. }
     cbn zeta. pose proof (add_global_event_entry_DI w tag k m HD Ei) as HD2. set (w2 := set_glists _ _) in *.
     assert (SG : SmInv (w_gev w)) by (destruct HD as [[[_ X] _] _]; exact X).
     assert (Hle : ev_le w2 w).
-    { split; [|intros i X; exact X]. intros i [A B]. split; unfold w2; cbn [w_gev w_glists set_glists set_hreg set_gev].
-      - eapply gbi_insert_mono; eauto.
-      - now apply nget_nrepeat_mono. }
+    { split; split; [|intros i X; exact X| |intros k0 X; exact X].
+      - intros i [A B]. split; unfold w2; cbn [w_gev w_glists set_glists set_hreg set_gev]; [eapply gbi_insert_mono; eauto|now apply nget_nrepeat_mono].
+      - intros k0 X. unfold w2. cbn [w_gev set_glists set_hreg set_gev]. rewrite (insert_get_other _ _ _ _ k0 SG Ei); [exact X|]. intros ->. apply X. eapply insert_get_fresh; eauto. }
     assert (Hnew : greg w2 (fst k)).
     { split; unfold w2; cbn [w_gev w_glists set_glists set_hreg set_gev].
       - erewrite gbi_insert_new by eauto. discriminate.
       - rewrite nget_nrepeat_to. destruct (nget (w_glists w) (fst k)); [discriminate|].
         replace (fst k <? N.of_nat (N.to_nat (fst k) + 1)) with true; [discriminate|]. symmetry. apply N.ltb_lt. lia. }
     assert (HZ2 : ZI w2).
-    { split; [split; [exact HD2|eapply SInv_le; [|exact HS]; now apply hs_le_hs]|]. split; [|split].
+    { split; [split; [exact HD2|eapply SInv_le; [|exact HS]; now apply hs_le_hs]|]. split; [|split; [|split]]; [| | |eapply RcvI_le; [|exact Hle|exact HRc]; now apply hs_le_hs].
       - destruct HB as [B1 B2]. split; [|exact B2]. unfold w2. cbn [w_gev w_gby set_glists set_hreg set_gev]. eapply by_insert; eauto.
       - intros i Hi. unfold w2 in *. cbn [w_gev w_glists set_glists set_hreg set_gev] in *. destruct (N.eq_dec i (fst k)) as [->|Hne]; [exact (proj2 Hnew)|].
         rewrite (gbi_insert_other _ _ _ _ i SG Ei Hne) in Hi. apply nget_nrepeat_mono. now apply HGl.
       - eapply NInv_le; [|exact Hle|exact HN]. now apply hs_le_hs. }
     destruct (IH G_ADDGE w2 HZ2) as [_ Hs]. specialize (Hs (mkEv 0 0 k)).
-    eapply rbind_ZOK; [exact Hs|]. intros [] w3 HZ3 Hle3. apply ZOK_ok; [exact HZ3|]. split; [eapply ev_le_trans; eauto|exact (proj1 Hle3 _ Hnew)]. }
+    eapply rbind_ZOK; [exact Hs|]. intros [] w3 HZ3 Hle3. apply ZOK_ok; [exact HZ3|]. split; [eapply ev_le_trans; eauto|split; [exact (ev_le_g _ _ Hle3 _ Hnew)|]]. apply (proj1 (proj2 Hle3) k). unfold w2. cbn [w_gev set_glists set_hreg set_gev]. rewrite (insert_get_new _ _ _ _ SG Ei). discriminate. }
   split; [exact Hadd|]. intros ev. rewrite send_global_S. destruct (IH tag w HZ) as [(Z1 & N1 & P1) _].
   destruct (add_global_event beh f tag w) as [k w1|e w1]; cbn [res_world] in *.
-  - destruct P1 as [Hle Hg].
+  - destruct P1 as [Hle [Hg _]].
     assert (HZ2 : ZI (if 10 <? tag then note w1 tag (ev_id ev) else w1)) by (destruct (10 <? tag); exact Z1).
     assert (Hr : registries (if 10 <? tag then note w1 tag (ev_id ev) else w1) = registries w1) by (destruct (10 <? tag); reflexivity).
     apply flush_ZOK_le; [exact HZ2| |eapply ev_le_trans; [apply ev_le_reg; exact Hr|exact Hle]].
@@ -413,7 +430,7 @@ Proof.
 Qed.
 Lemma send_global_ZOK tag ev w : ZI w -> ZOK (send_global beh RFUEL tag ev w) (fun _ w' => ev_le w' w).
 Proof. intros H. exact (proj2 (gev_ZOK RFUEL tag w H) ev). Qed.
-Lemma add_global_event_ZOK tag w : ZI w -> ZOK (add_global_event beh RFUEL tag w) (fun k w' => ev_le w' w /\ greg w' (fst k)).
+Lemma add_global_event_ZOK tag w : ZI w -> ZOK (add_global_event beh RFUEL tag w) (fun k w' => ev_le w' w /\ greg w' (fst k) /\ sm_get k (w_gev w') <> None).
 Proof. intros H. exact (proj1 (gev_ZOK RFUEL tag w H)). Qed.
 
 Lemma add_component_ZOK tag w : ZI w -> ZOK (add_component beh tag w) (fun _ w' => ev_le w' w).
@@ -432,15 +449,15 @@ Proof.
   destruct (tag =? T_DESPAWN); (apply ZOK_ok; [exact HZ|apply ev_le_refl]).
 Qed.
 
-Lemma add_targeted_event_ZOK tag w : ZI w -> ZOK (add_targeted_event beh tag w) (fun k w' => ev_le w' w /\ treg w' (fst k)).
+Lemma add_targeted_event_ZOK tag w : ZI w -> ZOK (add_targeted_event beh tag w) (fun k w' => ev_le w' w /\ treg w' (fst k) /\ sm_get k (w_tev w') <> None).
 Proof.
   intros HZ. rewrite add_targeted_event_unfold. pose proof (tev_stage1_ZOK tag w HZ) as (Z0 & N0 & P0).
   destruct (tev_stage1_FInv beh tag w (proj1 (DI_parts _ (proj1 (proj1 HZ))))) as [_ Hl].
   destruct (tev_stage1 beh tag w) as [kind w0|f w0]; cbn [rbind res_world] in *; [|split; [exact Z0|split; [exact N0|exact I]]].
-  destruct Z0 as [[HD0 HS0] (HB0 & HG0 & HN0)].
+  destruct Z0 as [[HD0 HS0] (HB0 & HG0 & HN0 & HR0)].
   destruct (alookup tag (w_tby w0)) as [k0|] eqn:El.
-  { apply ZOK_ok; [split; [split|split; [|split]]; assumption|]. split; [exact P0|eapply treg_of_by; eauto]. }
-  destruct (insert_with (fun _ => mkE tag kind) (w_tev w0)) as [[k m]|] eqn:Ei; [|apply ZOK_fail; [split; [split|split; [|split]]; assumption|cbn; tauto]].
+  { apply ZOK_ok; [split; [split|split; [|split; [|split]]]; assumption|]. split; [exact P0|split; [eapply treg_of_by; eauto|]]. destruct (proj2 HB0 _ _ El) as (i0 & A & _). rewrite A. discriminate. }
+  destruct (insert_with (fun _ => mkE tag kind) (w_tev w0)) as [[k m]|] eqn:Ei; [|apply ZOK_fail; [split; [split|split; [|split; [|split]]]; assumption|cbn; tauto]].
   pose proof (tev_entry_DI w0 tag kind k m HD0 Hl Ei) as HD1. set (w1 := tev_entry_world w0 tag kind k m) in *.
   assert (ST : SmInv (w_tev w0)) by (destruct (DI_parts _ HD0) as ([_ (_ & X & _)] & _); exact X).
   assert (Et : w_tev w1 = m) by (unfold w1, tev_entry_world; destruct kind; reflexivity).
@@ -448,22 +465,26 @@ Proof.
   assert (Eg : w_gev w1 = w_gev w0 /\ w_gby w1 = w_gby w0 /\ w_glists w1 = w_glists w0 /\ w_hs w1 = w_hs w0) by (unfold w1, tev_entry_world; destruct kind; repeat split).
   destruct Eg as (Eg1 & Eg2 & Eg3 & Eg4).
   assert (Hle : ev_le w1 w0).
-  { split; [intros i X; unfold greg in *; now rewrite Eg1, Eg3|]. intros i X. unfold treg in *. rewrite Et. eapply gbi_insert_mono; eauto. }
+  { split; split.
+    - intros i X; unfold greg in *; now rewrite Eg1, Eg3.
+    - intros i X. unfold treg in *. rewrite Et. eapply gbi_insert_mono; eauto.
+    - intros k0 X. now rewrite Eg1.
+    - intros k0 X. rewrite Et. rewrite (insert_get_other _ _ _ _ k0 ST Ei); [exact X|]. intros ->. apply X. eapply insert_get_fresh; eauto. }
   assert (Hnew : treg w1 (fst k)) by (unfold treg; rewrite Et; erewrite gbi_insert_new by eauto; discriminate).
   assert (HZ1 : ZI w1).
-  { split; [split; [exact HD1|eapply SInv_le; [|exact HS0]; now apply hs_le_hs]|]. split; [|split].
+  { split; [split; [exact HD1|eapply SInv_le; [|exact HS0]; now apply hs_le_hs]|]. split; [|split; [|split]]; [| | |eapply RcvI_le; [|exact Hle|exact HR0]; now apply hs_le_hs].
     - destruct HB0 as [B1 B2]. split; [rewrite Eg1, Eg2; exact B1|]. rewrite Et, Etb. eapply by_insert; eauto.
     - unfold GlInv. rewrite Eg1, Eg3. exact HG0.
     - eapply NInv_le; [|exact Hle|exact HN0]. now apply hs_le_hs. }
   eapply rbind_ZOK; [apply send_global_ZOK; exact HZ1|]. intros [] w2 HZ2 Hle2. apply ZOK_ok; [exact HZ2|].
-  split; [eapply ev_le_trans; [exact Hle2|eapply ev_le_trans; eauto]|exact (proj2 Hle2 _ Hnew)].
+  split; [eapply ev_le_trans; [exact Hle2|eapply ev_le_trans; eauto]|split; [exact (ev_le_t _ _ Hle2 _ Hnew)|]]. apply (proj2 (proj2 Hle2) k). rewrite Et. rewrite (insert_get_new _ _ _ _ ST Ei). discriminate.
 Qed.
 
 Lemma send_to_ZOK tag target ev w : ZI w -> ZOK (send_to beh tag target ev w) (fun _ w' => ev_le w' w).
 Proof.
   intros HZ. unfold send_to. destruct (add_targeted_event_ZOK tag w HZ) as (Z1 & N1 & P1).
   destruct (add_targeted_event beh tag w) as [k w1|e w1]; cbn [res_world] in *.
-  - destruct P1 as [Hle Ht]. apply flush_ZOK_le; [exact Z1| |exact Hle]. intros x [<-|[]]. exact Ht.
+  - destruct P1 as [Hle [Ht _]]. apply flush_ZOK_le; [exact Z1| |exact Hle]. intros x [<-|[]]. exact Ht.
   - apply ZOK_fail; [now apply ZI_ev_drop|]. destruct e; cbn in *; tauto.
 Qed.
 
@@ -508,8 +529,13 @@ Definition CfInv3 (c : hconfig) (w : world) : Prop :=
     (forall tag i, In (tag, i) g -> smem i (cf_sg c) = true /\ greg w i) /\
     (forall tag i, In (tag, i) t -> smem i (cf_st c) = true /\ treg w i).
 Lemma CfInv3_le c w w' : ev_le w' w -> CfInv3 c w -> CfInv3 c w'.
-Proof. intros [L1 L2] H g t Hin. destruct (H g t Hin) as [A B]. split; intros tag i X; [destruct (A tag i X)|destruct (B tag i X)]; auto. Qed.
+Proof. intros [[L1 L2] _] H g t Hin. destruct (H g t Hin) as [A B]. split; intros tag i X; [destruct (A tag i X)|destruct (B tag i X)]; auto. Qed.
 Lemma CfInv3_cfg0 w : CfInv3 cfg0 w. Proof. intros g t []. Qed.
+Definition CfR (c : hconfig) (w : world) : Prop :=
+  match cf_recv c with RcOk (RvGlobal ek) => sm_get ek (w_gev w) <> None | RcOk (RvTargeted ek) => sm_get ek (w_tev w) <> None | _ => True end.
+Lemma CfR_le c w w' : ev_le w' w -> CfR c w -> CfR c w'.
+Proof. intros [_ [K1 K2]]. unfold CfR. destruct (cf_recv c) as [|[ek|ek]|]; auto. Qed.
+Lemma CfR_cfg0 w : CfR cfg0 w. Proof. exact I. Qed.
 
 Section ZOps2.
 Variable beh : hinfo -> logent -> N -> script.
@@ -531,23 +557,26 @@ Lemma register_set_ZOK evs : forall w, ZI w -> ZOK (register_set beh evs w) (fun
 Proof.
   induction evs as [|[t tag] rest IH]; intros w HZ; cbn [register_set]; [apply ZOK_ok; [exact HZ|split; [apply ev_le_refl|intros x []]]|].
   eapply rbind_ZOK with (post1 := fun k w' => ev_le w' w /\ reg_ok w' (t, tag, fst k)).
-  - destruct t; [apply add_targeted_event_ZOK; exact HZ|apply add_global_event_ZOK; exact HZ].
+  - destruct t; [eapply ZOK_weaken; [|apply add_targeted_event_ZOK; exact HZ]|eapply ZOK_weaken; [|apply add_global_event_ZOK; exact HZ]]; intros k0 w0 _ (A & B & _); split; assumption.
   - intros k w1 HZ1 [Hle1 Hk]. eapply rbind_ZOK; [apply IH; exact HZ1|]. intros r w2 HZ2 [Hle2 Hr]. apply ZOK_ok; [exact HZ2|].
-    split; [exact (ev_le_trans _ _ _ Hle2 Hle1)|]. intros x [<-|Hin]; [|now apply Hr]. unfold reg_ok in *. cbn [fst snd] in *. destruct t; [exact (proj2 Hle2 _ Hk)|exact (proj1 Hle2 _ Hk)].
+    split; [exact (ev_le_trans _ _ _ Hle2 Hle1)|]. intros x [<-|Hin]; [|now apply Hr]. unfold reg_ok in *. cbn [fst snd] in *. destruct t; [exact (ev_le_t _ _ Hle2 _ Hk)|exact (ev_le_g _ _ Hle2 _ Hk)].
 Qed.
 
-Lemma init_param_ZOK p c w : ZI w -> CfInv3 c w -> ZOK (init_param beh p c w) (fun c' w' => ev_le w' w /\ CfInv3 c' w').
+Lemma init_param_ZOK p c w : ZI w -> CfInv3 c w -> CfR c w -> ZOK (init_param beh p c w) (fun c' w' => ev_le w' w /\ CfInv3 c' w' /\ CfR c' w').
 Proof.
-  intros HZ HC. destruct p as [tag m|tag m q|k q|evs]; cbn [init_param].
-  - eapply rbind_ZOK; [apply add_global_event_ZOK; exact HZ|]. intros k w1 HZ1 [Hle _]. apply ZOK_ok; [exact HZ1|]. split; [exact Hle|].
-    intros g t Hin. cbn [cf_params cf_sg cf_st] in *. apply in_app_or in Hin as [Hin|[X|[]]]; [|discriminate]. exact (CfInv3_le c w w1 Hle HC g t Hin).
-  - eapply rbind_ZOK; [apply add_targeted_event_ZOK; exact HZ|]. intros k w1 HZ1 [Hle1 _].
+  intros HZ HC HR. destruct p as [tag m|tag m q|k q|evs]; cbn [init_param].
+  - eapply rbind_ZOK; [apply add_global_event_ZOK; exact HZ|]. intros k w1 HZ1 [Hle [_ Hk]]. apply ZOK_ok; [exact HZ1|]. split; [exact Hle|split].
+    + intros g t Hin. cbn [cf_params cf_sg cf_st] in *. apply in_app_or in Hin as [Hin|[X|[]]]; [|discriminate]. exact (CfInv3_le c w w1 Hle HC g t Hin).
+    + unfold CfR, cfg_set_recv. cbn [cf_recv]. destruct (cf_recv c) as [|old|]; [exact Hk| |exact I]. destruct (recvid_eqb old (RvGlobal k)); [exact Hk|exact I].
+  - eapply rbind_ZOK; [apply add_targeted_event_ZOK; exact HZ|]. intros k w1 HZ1 [Hle1 [_ Hk]].
     eapply rbind_ZOK; [apply resolve_query_ZOK; exact HZ1|]. intros q' w2 HZ2 Hle2. apply ZOK_ok; [exact HZ2|].
-    assert (Hle : ev_le w2 w) by exact (ev_le_trans _ _ _ Hle2 Hle1). split; [exact Hle|].
-    intros g t Hin. cbn [cf_params cf_sg cf_st] in *. apply in_app_or in Hin as [Hin|[X|[]]]; [|discriminate]. exact (CfInv3_le c w w2 Hle HC g t Hin).
-  - eapply rbind_ZOK; [apply resolve_query_ZOK; exact HZ|]. intros q' w1 HZ1 Hle. apply ZOK_ok; [exact HZ1|]. split; [exact Hle|].
+    assert (Hle : ev_le w2 w) by exact (ev_le_trans _ _ _ Hle2 Hle1). split; [exact Hle|split].
+    + intros g t Hin. cbn [cf_params cf_sg cf_st] in *. apply in_app_or in Hin as [Hin|[X|[]]]; [|discriminate]. exact (CfInv3_le c w w2 Hle HC g t Hin).
+    + assert (Hk2 : sm_get k (w_tev w2) <> None) by exact (proj2 (proj2 Hle2) k Hk).
+      unfold CfR, cfg_set_recv. cbn [cf_recv]. destruct (cf_recv c) as [|old|]; [exact Hk2| |exact I]. destruct (recvid_eqb old (RvTargeted k)); [exact Hk2|exact I].
+  - eapply rbind_ZOK; [apply resolve_query_ZOK; exact HZ|]. intros q' w1 HZ1 Hle. apply ZOK_ok; [exact HZ1|]. split; [exact Hle|split; [|exact (CfR_le c w w1 Hle HR)]].
     intros g t Hin. cbn [cf_params cf_sg cf_st] in *. apply in_app_or in Hin as [Hin|[X|[]]]; [|discriminate]. exact (CfInv3_le c w w1 Hle HC g t Hin).
-  - eapply rbind_ZOK; [apply register_set_ZOK; exact HZ|]. intros r w1 HZ1 [Hle Hr]. apply ZOK_ok; [exact HZ1|]. split; [exact Hle|].
+  - eapply rbind_ZOK; [apply register_set_ZOK; exact HZ|]. intros r w1 HZ1 [Hle Hr]. apply ZOK_ok; [exact HZ1|]. split; [exact Hle|split; [|exact (CfR_le c w w1 Hle HR)]].
     intros g t Hin. cbn [cf_params cf_sg cf_st] in *. apply in_app_or in Hin as [Hin|[X|[]]].
     + destruct (CfInv3_le c w w1 Hle HC g t Hin) as [A B]. split; intros tag i X; [destruct (A tag i X) as [A1 A2]|destruct (B tag i X) as [A1 A2]]; (split; [|exact A2]); apply smem_fold_sinsert; now left.
     + inversion X; subst g t. clear X. split; intros tag i X.
@@ -559,11 +588,11 @@ Proof.
         -- exact (Hr _ Hx).
 Qed.
 
-Lemma init_params_ZOK ps : forall c w, ZI w -> CfInv3 c w -> ZOK (init_params beh ps c w) (fun c' w' => ev_le w' w /\ CfInv3 c' w').
+Lemma init_params_ZOK ps : forall c w, ZI w -> CfInv3 c w -> CfR c w -> ZOK (init_params beh ps c w) (fun c' w' => ev_le w' w /\ CfInv3 c' w' /\ CfR c' w').
 Proof.
-  induction ps as [|p t IH]; intros c w HZ HC; cbn [init_params]; [apply ZOK_ok; [exact HZ|split; [apply ev_le_refl|exact HC]]|].
-  eapply rbind_ZOK; [apply init_param_ZOK; [exact HZ|exact HC]|]. intros c1 w1 HZ1 [Hle1 HC1].
-  eapply ZOK_weaken; [|apply IH; [exact HZ1|exact HC1]]. intros c2 w2 _ [Hle2 HC2]. split; [exact (ev_le_trans _ _ _ Hle2 Hle1)|exact HC2].
+  induction ps as [|p t IH]; intros c w HZ HC HR; cbn [init_params]; [apply ZOK_ok; [exact HZ|split; [apply ev_le_refl|split; assumption]]|].
+  eapply rbind_ZOK; [apply init_param_ZOK; [exact HZ|exact HC|exact HR]|]. intros c1 w1 HZ1 (Hle1 & HC1 & HR1).
+  eapply ZOK_weaken; [|apply IH; [exact HZ1|exact HC1|exact HR1]]. intros c2 w2 _ (Hle2 & HC2 & HR2). split; [exact (ev_le_trans _ _ _ Hle2 Hle1)|split; assumption].
 Qed.
 End ZOps2.
 
@@ -619,25 +648,25 @@ Proof.
   intros HZ. unfold add_handler.
   destruct (match sh_tid sh with Some t => alookup t (w_hby w) | None => None end); [apply ZOK_ok; [exact HZ|exact I]|].
   pose proof (init_params_CfInv beh (sh_params sh) cfg0 w CfInv_cfg0) as HC. pose proof (init_params_CfInv2 beh (sh_params sh) cfg0 w CfInv2_cfg0) as HC2.
-  destruct (init_params_ZOK beh (sh_params sh) cfg0 w HZ (CfInv3_cfg0 w)) as (Z1 & N1 & P1).
+  destruct (init_params_ZOK beh (sh_params sh) cfg0 w HZ (CfInv3_cfg0 w) (CfR_cfg0 w)) as (Z1 & N1 & P1).
   destruct (init_params beh (sh_params sh) cfg0 w) as [c w1|f w1]; cbn [rbind res_world] in *; [|split; [exact Z1|split; [exact N1|exact I]]].
-  destruct P1 as [_ HC3].
+  destruct P1 as (_ & HC3 & HCR).
   destruct (cf_recv c) as [|rv|] eqn:Erv; try (apply ZOK_fail; [exact Z1|cbn; tauto]). destruct (cf_access c) as [acc|]; [|apply ZOK_fail; [exact Z1|cbn; tauto]].
   destruct (handler_conflicts (cf_cas c)); [|apply ZOK_fail; [exact Z1|cbn; tauto]]. cbn zeta.
   change (insert_with _ (w_hs w1)) with (insert_with (new_hinfo w1 sh c rv acc) (w_hs w1)).
   destruct (insert_with (new_hinfo w1 sh c rv acc) (w_hs w1)) as [[k hs]|] eqn:Ei; [|apply ZOK_fail; [exact Z1|cbn; tauto]].
   match goal with |- context [archs_register_handler ?w2 k] => change (archs_register_handler w2 k) with (new_hworld w1 sh rv k hs) end.
-  destruct Z1 as [[HD1 HS1] (HB1 & HG1 & HN1)].
+  destruct Z1 as [[HD1 HS1] (HB1 & HG1 & HN1 & HR1)].
   destruct (DI_parts _ HD1) as (_ & ((S & _) & _) & _ & _).
   set (w2 := set_hreg w1 hs (new_glists w1 sh rv k) (match sh_tid sh with Some t => ainsert t k (w_hby w1) | None => w_hby w1 end) (w_hctr w1 + 1) (w_horder w1 ++ [(w_hctr w1, k)])).
   assert (Hgl : forall i, nget (w_glists w1) i <> None -> nget (new_glists w1 sh rv k) i <> None).
   { intros i Hi. unfold new_glists. destruct rv as [ek|ek]; [|exact Hi]. cbn zeta. destruct (nget (nrepeat_to _ _ _) (fst ek)); [apply nget_nset_mono|]; now apply nget_nrepeat_mono. }
-  assert (Hle : ev_le w2 w1) by (split; [intros i [A B]; split; [exact A|now apply Hgl]|intros i X; exact X]).
+  assert (Hle : ev_le w2 w1) by (split; split; [intros i [A B]; split; [exact A|now apply Hgl]|intros i X; exact X|intros k0 X; exact X|intros k0 X; exact X]).
   assert (HN2 : NInv w2).
   { intros hk h Hl. unfold hlive, w2 in Hl. cbn [w_hs set_hreg] in Hl. destruct (key_eq_dec hk k) as [->|Hne].
     - rewrite (insert_get_new _ _ _ _ S Ei) in Hl. inversion Hl; subst h. intros g t Hin. unfold pss, new_hinfo in Hin. cbn [h_params] in Hin.
       apply in_map_iff in Hin as (p & Hp & Hin). destruct p; try discriminate. cbn [psend] in Hp. inversion Hp; subst. destruct (HC3 g t Hin) as [A B].
-      unfold new_hinfo. cbn [h_sent_g h_sent_t]. split; intros tag i X; [destruct (A tag i X) as [A1 A2]; split; [exact A1|exact (proj1 Hle _ A2)]|destruct (B tag i X) as [A1 A2]; split; [exact A1|exact (proj2 Hle _ A2)]].
+      unfold new_hinfo. cbn [h_sent_g h_sent_t]. split; intros tag i X; [destruct (A tag i X) as [A1 A2]; split; [exact A1|exact (ev_le_g _ _ Hle _ A2)]|destruct (B tag i X) as [A1 A2]; split; [exact A1|exact (ev_le_t _ _ Hle _ A2)]].
     - rewrite (insert_get_other _ _ _ _ hk S Ei Hne) in Hl. eapply sender_ok_view; [reflexivity|exact Hle|exact (HN1 hk h Hl)]. }
   assert (HZ3 : ZI (new_hworld w1 sh rv k hs)).
   { unfold new_hworld. fold w2. pose proof (hs_le_hv3 _ _ (hv3_archs_register_handler w2 k)) as Hh3.
@@ -648,8 +677,11 @@ Proof.
         * exact HA.
         * intros ek -> q Hin. specialize (HBc (ex_intro _ q Hin)). rewrite Erv in HBc. exact HBc.
       + rewrite (insert_get_other _ _ _ _ hk S Ei Hne) in Hl. exact (HS1 hk h Hl).
-    - eapply YI_frame; [apply registries_archs_register_handler|exact Hh3|]. split; [exact HB1|split; [|exact HN2]].
-      intros i Hi. unfold w2. cbn [w_glists set_hreg]. apply Hgl. now apply HG1. }
+    - eapply YI_frame; [apply registries_archs_register_handler|exact Hh3|]. split; [exact HB1|split; [|split; [exact HN2|]]].
+      + intros i Hi. unfold w2. cbn [w_glists set_hreg]. apply Hgl. now apply HG1.
+      + intros hk h Hl. unfold hlive, w2 in Hl. cbn [w_hs set_hreg] in Hl. destruct (key_eq_dec hk k) as [->|Hne].
+        * rewrite (insert_get_new _ _ _ _ S Ei) in Hl. inversion Hl; subst h. unfold recv_ok, new_hinfo. cbn [h_recv]. unfold CfR in HCR. rewrite Erv in HCR. exact HCR.
+        * rewrite (insert_get_other _ _ _ _ hk S Ei Hne) in Hl. exact (HR1 hk h Hl). }
   eapply rbind_ZOK; [apply send_global_ZOK; exact HZ3|]. intros [] w4 HZ4 _. apply ZOK_ok; [exact HZ4|exact I].
 Qed.
 End ZOps3.
@@ -658,12 +690,13 @@ End ZOps3.
 Lemma YI_le w' w : w_gev w' = w_gev w -> w_gby w' = w_gby w -> w_tev w' = w_tev w -> w_tby w' = w_tby w ->
   (forall i, nget (w_glists w) i <> None -> nget (w_glists w') i <> None) -> hs_le w' w -> YI w -> YI w'.
 Proof.
-  intros E1 E2 E3 E4 Hg Hh (HB & HG & HN).
-  assert (He : ev_le w' w) by (split; [intros i [A B]; split; [now rewrite E1|now apply Hg]|intros i X; unfold treg in *; now rewrite E3]).
-  split; [|split].
+  intros E1 E2 E3 E4 Hg Hh (HB & HG & HN & HR).
+  assert (He : ev_le w' w) by (split; split; [intros i [A B]; split; [now rewrite E1|now apply Hg]|intros i X; unfold treg in *; now rewrite E3|intros k0 X; now rewrite E1|intros k0 X; now rewrite E3]).
+  split; [|split; [|split]].
   - unfold ByInv. rewrite E1, E2, E3, E4. exact HB.
   - intros i Hi. rewrite E1 in Hi. apply Hg. now apply HG.
   - eapply NInv_le; eauto.
+  - eapply RcvI_le; eauto.
 Qed.
 
 Lemma registries_rc_step cidx ctag w ai : registries (rc_step cidx ctag w ai) = registries w.
@@ -765,13 +798,16 @@ Proof.
   destruct (remove_handlers_ZOK beh (map h_key (filter P (handlers_in_order w1))) w1 Z1) as (Z2 & N2 & P2).
   destruct (remove_handlers beh (map h_key (filter P (handlers_in_order w1))) w1) as [[] w2|f w2]; cbn [rbind res_world] in *; [|split; [exact Z2|split; [exact N2|exact I]]].
   destruct (sm_remove k (w_gev w2)) as [[info m]|] eqn:Er; [|apply ZOK_fail; [exact Z2|cbn; tauto]]. cbn [res_world] in *.
-  destruct Z2 as [[HD2 HS2] (HB2 & HG2 & HN2)]. destruct Z1 as [[HD1 _] _].
+  destruct Z2 as [[HD2 HS2] (HB2 & HG2 & HN2 & HR2)]. destruct Z1 as [[HD1 _] _].
   assert (SG : SmInv (w_gev w2)) by (destruct HD2 as [[[_ X] _] _]; exact X).
   assert (HH1 : HInv w1) by (destruct (DI_parts _ HD1) as (_ & (X & _) & _); exact X).
   assert (HPs : forall h1 h2, hstat h2 = hstat h1 -> P h2 = P h1) by (intros h1 h2 Es; unfold P; now rewrite (f_equal h_recv Es : h_recv h2 = h_recv h1), (f_equal h_sent_g Es : h_sent_g h2 = h_sent_g h1)).
   pose proof (survivors w1 w2 P HH1 Hle P2 HPs) as Hsurv.
   apply ZOK_ok; [|intros _; split; [cbn [w_gev set_gev]; eapply remove_get_gone; eauto|intros hk h Hl; exact (Hsurv hk h Hl)]].
-  split; [split; [exact HDf|eapply SInv_le; [|exact HS2]; now apply hs_le_hs]|]. split; [|split].
+  split; [split; [exact HDf|eapply SInv_le; [|exact HS2]; now apply hs_le_hs]|]. split; [|split; [|split]].
+  4:{ intros hk h Hl. change (hlive w2 hk h) in Hl. pose proof (HR2 hk h Hl) as Hr. pose proof (Hsurv hk h Hl) as Hp. unfold recv_ok in *.
+      destruct (h_recv h) as [ek|ek] eqn:Erv; [|exact Hr]. cbn [w_gev set_gev]. rewrite (remove_get_other k (w_gev w2) info m ek SG Er); [exact Hr|].
+      intros ->. unfold P in Hp. rewrite Erv in Hp. cbn [recvid_eqb] in Hp. rewrite (proj2 (key_eqb_spec k k) eq_refl) in Hp. discriminate. }
   - destruct HB2 as [B1 B2]. split; [|exact B2]. cbn [w_gev w_gby set_gev]. eapply by_remove; eauto.
   - intros i Hi. cbn [w_gev w_glists set_gev] in *. destruct (gbi_remove_mono _ _ _ _ _ Er Hi) as [_ X]. now apply HG2.
   - intros hk h Hl. change (hlive w2 hk h) in Hl. intros g t Hin. destruct (HN2 hk h Hl g t Hin) as [A B]. split; [|exact B].
@@ -793,7 +829,7 @@ Proof.
   destruct (remove_handlers_ZOK beh (map h_key (filter P (handlers_in_order w1))) w1 Z1) as (Z2 & N2 & P2).
   destruct (remove_handlers beh (map h_key (filter P (handlers_in_order w1))) w1) as [[] w2|f w2]; cbn [rbind res_world] in *; [|split; [exact Z2|split; [exact N2|exact I]]].
   destruct (sm_remove k (w_tev w2)) as [[info m]|] eqn:Er; [|apply ZOK_fail; [exact Z2|cbn; tauto]]. cbn [res_world] in *.
-  destruct Z2 as [[HD2 HS2] (HB2 & HG2 & HN2)]. destruct Z1 as [[HD1 _] _].
+  destruct Z2 as [[HD2 HS2] (HB2 & HG2 & HN2 & HR2)]. destruct Z1 as [[HD1 _] _].
   assert (ST : SmInv (w_tev w2)) by (destruct (DI_parts _ HD2) as ([_ (_ & X & _)] & _); exact X).
   assert (HH1 : HInv w1) by (destruct (DI_parts _ HD1) as (_ & (X & _) & _); exact X).
   assert (HPs : forall h1 h2, hstat h2 = hstat h1 -> P h2 = P h1) by (intros h1 h2 Es; unfold P; now rewrite (f_equal h_recv Es : h_recv h2 = h_recv h1), (f_equal h_sent_t Es : h_sent_t h2 = h_sent_t h1)).
@@ -803,7 +839,10 @@ Proof.
     by (unfold w4; destruct (e_kind info); repeat split).
   destruct E1 as (E1 & E2 & E3 & E4 & E5 & E6).
   apply ZOK_ok; [|intros _; split; [rewrite E5; eapply remove_get_gone; eauto|intros hk h Hl; unfold hlive in Hl; rewrite E4 in Hl; exact (Hsurv hk h Hl)]].
-  split; [split; [exact HDf|eapply SInv_le; [|exact HS2]; now apply hs_le_hs]|]. split; [|split].
+  split; [split; [exact HDf|eapply SInv_le; [|exact HS2]; now apply hs_le_hs]|]. split; [|split; [|split]].
+  4:{ intros hk h Hl. unfold hlive in Hl. rewrite E4 in Hl. change (hlive w2 hk h) in Hl. pose proof (HR2 hk h Hl) as Hr. pose proof (Hsurv hk h Hl) as Hp. unfold recv_ok in *.
+      destruct (h_recv h) as [ek|ek] eqn:Erv; [now rewrite E1|]. rewrite E5. rewrite (remove_get_other k (w_tev w2) info m ek ST Er); [exact Hr|].
+      intros ->. unfold P in Hp. rewrite Erv in Hp. cbn [recvid_eqb] in Hp. rewrite (proj2 (key_eqb_spec k k) eq_refl) in Hp. discriminate. }
   - destruct HB2 as [B1 B2]. split; [rewrite E1, E2; exact B1|]. rewrite E5, E6. eapply by_remove; eauto.
   - unfold GlInv. rewrite E1, E3. exact HG2.
   - intros hk h Hl. unfold hlive in Hl. rewrite E4 in Hl. change (hlive w2 hk h) in Hl. intros g t Hin. destruct (HN2 hk h Hl g t Hin) as [A B]. split.
@@ -832,7 +871,7 @@ Proof.
   destruct (send_global beh RFUEL G_RMC (mkEv 0 0 k) w) as [[] w1|f w1]; cbn [rbind res_world] in *; [|split; [exact Z1|split; [exact N1|exact I]]].
   destruct (add_targeted_event_ZOK beh T_DESPAWN w1 Z1) as (Z2 & N2 & P2).
   destruct (add_targeted_event beh T_DESPAWN w1) as [dk w2|f w2]; cbn [rbind res_world] in *; [|split; [exact Z2|split; [exact N2|exact I]]].
-  destruct P2 as [_ Hdk].
+  destruct P2 as [_ [Hdk _]].
   match goal with |- context [flush beh ?q0 w2] => set (q := q0) in * end.
   assert (Hq : forall x, In x q -> item_ok w2 x).
   { intros x Hin. unfold q in Hin. apply in_flat_map in Hin as ([ai a] & _ & Hin). destruct (arch_has a (fst k)); [|destruct Hin].
@@ -903,7 +942,8 @@ Qed.
 
 Lemma ZI_world0 fuel p : ZI (world0 fuel p).
 Proof.
-  split; [split; [apply DI_world0|apply SInv_world0]|]. split; [|split].
+  split; [split; [apply DI_world0|apply SInv_world0]|]. split; [|split; [|split]].
+  4:{ intros hk h H. unfold hlive, world0 in H. cbn [w_hs] in H. discriminate. }
   - split; intros tag k H; unfold world0 in H; cbn in H; discriminate.
   - intros i H. exfalso. apply H. unfold world0, get_by_index. cbn. now destruct i.
   - intros hk h H. unfold hlive, world0 in H. cbn [w_hs] in H. discriminate.
